@@ -1,25 +1,39 @@
 """C04 - blocked layers process events exactly once, in order (queue discipline of Layer / NextLayer / routers).
 
-Decided (path enumeration over the source of the named functions, leaf conditions mapped to named atoms whose
-truth comes from a scenario table; traces are projected onto the queue / generator / pause alphabet):
-  R04.1 effect table of Layer.handle_event over (paused?, event is CommandCompleted?, event.command is the awaited
-        command?): queue-and-nothing-else / resume / handle-once.  The identity test must not be looked at for
-        non-completions and equality instead of identity is treated as "may also match a foreign command".
-  R04.2 Layer.__continue: awaited generator read, _paused reset, generator resumed with event.reply, then a while loop
-        that re-checks `not paused and queue` before every dequeue, dequeues from the FRONT, and hands each dequeued
-        event to _handle_event exactly once and drives that generator.
-  R04.3 (a) the command pump (Layer.__process and its inlined copy) per blocking value {False, True, <inner layer>}:
+Decided (path enumeration over the source, leaf conditions mapped to named atoms whose truth comes from a scenario table; traces are
+projected onto the queue / generator / pause alphabet).  The code is found by ROLE, never by private names: in class Layer the pause
+attribute is the one that is None in __init__ and later assigned a record of the module, the queue is the attribute initialised with a
+deque, the command pump is the method that advances a generator it is handed (directly or through a helper); only the public names
+``handle_event`` / ``_handle_event`` (and the documented anchors of the other layers) are looked up.  Every other method or module
+function that touches that state is INLINED at its call site (path engine), so an extracted, merged or renamed helper is analysed exactly
+like the statements it stands for; locals are followed by abstract value (snapshots ``p = self._paused``, queue aliases, temporaries for
+the record / the completion test / ``command.blocking``, tuple assignments, conditional expressions, walrus, ``cast``, simple properties);
+the content of the pause attribute is tracked along the trace (entry value / None after a reset / the stored record / unknown after a
+pump call), so a stale snapshot is not mistaken for a re-check.
+  R04.1 effect table of Layer.handle_event over (paused?, event is CommandCompleted?, event.command is the awaited command?):
+        queue-and-nothing-else / resume / handle-once.  The identity test must not be looked at for non-completions and equality
+        instead of identity is treated as "may also match a foreign command".  An assertion that is definitely false in a row (for
+        instance in an inlined resume helper) is a crash of that row, not an infeasible path.
+  R04.2 the row of the awaited completion (wherever that code lives: __continue today) is a word of the resume-and-drain language:
+        the generator stored in the pause record at entry is read before the single reset, resumed through the pump with event.reply,
+        then a while loop that re-checks `not paused and queue` (on the CURRENT values) before every dequeue, dequeues from the FRONT,
+        and hands each dequeued event to _handle_event exactly once and drives that generator.
+  R04.3 (a) the command pump (the pump method and its inlined copy) per blocking value {False, True, <inner layer>}:
         every command obtained is yielded exactly once; only `blocking is True` pauses: blocking := self and
-        _paused := Paused(command, generator) BEFORE the yield, no advance afterwards; nothing else pauses.
+        pause := Record(command, generator) BEFORE the yield, no advance afterwards; nothing else pauses.
         (b) routers HttpLayer / RawQuicLayer: a blocking-or-wakeup command is recorded in command_sources[command] =
         child before it is yielded upward or consumed by a method that pops it; CommandCompleted is routed to
         command_sources[event.command] with the same event, exactly once.
-  R04.4 the inlined copy of __process in handle_event has the same projected trace set as __process(gen, None).
+  R04.4 the inlined copy of the pump in handle_event has the same projected trace set as pump(gen, None) (or handle_event delegates).
   R04.5 NextLayer._handle_event buffers the event before anything else, exactly once; _ask replays self.events in list
         order, each exactly once, without mutating the list before/while replaying, rebinds _handle_event to the chosen
         layer, and leaves the buffer alone while undecided.  TunnelLayer.event_to_child either queues or forwards each
         event exactly once (queue iff ESTABLISHING and nobody waits for OpenConnection); _handshake_finished leaves
         ESTABLISHING before replaying _event_queue in order, each exactly once, no mutation before/while replaying.
+        (Helpers of these classes that touch the buffers / handlers / command_sources are inlined as well.)
+Refused (exit 2, never a verdict): no or several pump methods, a state-touching helper called where the path engine cannot inline it
+(nested in an expression) or with effectful arguments, a test of a stale ``command.blocking`` snapshot, replay by something else than a
+``for`` loop over the buffer, a property / tunnel state / rebind value the rule cannot evaluate.
 NOT decided: behaviour under real schedules (asyncio), layers overriding handle_event themselves, that every concrete
 layer only blocks through the pump. Clearing the replay buffers *after* the replay is not demanded (not necessary for
 the property once handlers are rebound / the state left ESTABLISHING).
@@ -34,10 +48,8 @@ from ..core import norm
 from ..model import attr_chain
 from ..model import eval_order
 from ..model import last_attr
-from ..model import walk_in_order
 from ..paths import C
 from ..paths import R
-from ..paths import UNKNOWN
 from ..selftest import Mutant
 from ._helpers_A import ASpec
 from ._helpers_A import compare_pair
@@ -116,11 +128,19 @@ def _assign_pairs(node):
     """(target, value) pairs of an assignment statement, tuple targets flattened (their value is None = not modelled)."""
     if isinstance(node, ast.Assign):
         out = []
-        for t in node.targets:
+
+        def pair(t, v):
             if isinstance(t, (ast.Tuple, ast.List)):
-                out.extend((e, None) for e in ast.walk(t) if isinstance(e, (ast.Attribute, ast.Name, ast.Subscript)) and isinstance(e.ctx, ast.Store))
+                if isinstance(v, (ast.Tuple, ast.List)) and len(v.elts) == len(t.elts) and not any(isinstance(e, ast.Starred) for e in list(t.elts) + list(v.elts)):
+                    for a, b in zip(t.elts, v.elts):  # a, b = x, y: element-wise (the right-hand side is evaluated first)
+                        pair(a, b)
+                else:
+                    out.extend((e, None) for e in ast.walk(t) if isinstance(e, (ast.Attribute, ast.Name, ast.Subscript)) and isinstance(e.ctx, ast.Store))
             else:
-                out.append((t, node.value))
+                out.append((t, v))
+
+        for t in node.targets:
+            pair(t, node.value)
         return out
     if isinstance(node, ast.AnnAssign) and node.value is not None:
         return [(node.target, node.value)]
@@ -129,11 +149,43 @@ def _assign_pairs(node):
     return []
 
 
+def _guard_capture(name):
+    """If ``name`` (a Name being read) stands in the guard of a ``case`` whose pattern captures it, the expression it is bound to
+    (``subject`` for ``as name``, ``subject.attr`` for ``Cls(attr=name)``), else None."""
+    n, p = name, getattr(name, "_parent", None)
+    while p is not None and not isinstance(p, (ast.match_case, ast.FunctionDef, ast.AsyncFunctionDef, ast.Lambda)):
+        n, p = p, getattr(p, "_parent", None)
+    if not isinstance(p, ast.match_case) or n is not p.guard:
+        return None
+    m = getattr(p, "_parent", None)
+    if not isinstance(m, ast.Match):
+        return None
+    pat = p.pattern
+    if isinstance(pat, ast.MatchAs) and pat.pattern is not None:
+        if pat.name == name.id:
+            return m.subject
+        pat = pat.pattern
+    if isinstance(pat, ast.MatchClass):
+        for attr, sub in zip(pat.kwd_attrs, pat.kwd_patterns):
+            if isinstance(sub, ast.MatchAs) and sub.pattern is None and sub.name == name.id:
+                return ast.copy_location(ast.Attribute(value=m.subject, attr=attr, ctx=ast.Load()), name)
+    return None
+
+
 class LSpec(ASpec):
     """ASpec + (a) the statement-level (assignment) labels of ``target = a if c else b``: the path engine evaluates such an assignment branch by
     branch through ``bind`` without asking for the labels of the statement, so they are produced here from a synthetic ``target = a`` (marked
     ``_assign_only``: the label functions skip its sub-expressions, which the engine has labelled already); (b) objects of the abstract
     domain are known not to be None."""
+
+    def value(self, expr, st, depth):
+        # (d) a capture of a class pattern used in the guard of the same case (`case X(command=c) if c is ...`): the path engine binds
+        # captures only after it has evaluated the guard, so the capture is resolved here to `subject.attr` / `subject`
+        if isinstance(expr, ast.Name) and isinstance(expr.ctx, ast.Load) and not st.has(f"{depth}:{expr.id}"):
+            src = _guard_capture(expr)
+            if src is not None:
+                return self.value(src, st, depth)
+        return ASpec.value(self, expr, st, depth)
 
     def bind(self, target, value_expr, st, depth, value=None):
         p = getattr(value_expr, "_parent", None) if value_expr is not None else None
@@ -144,6 +196,51 @@ class LSpec(ASpec):
             synth._assign_only = True
             st = st.emit(*self._label(synth, st, self))
         return ASpec.bind(self, target, value_expr, st, depth, value)
+
+    # (c) the path engine assumes assertions to hold (paths violating them are dropped).  Helpers are inlined into the scenario of
+    # their caller here, so an assertion over scenario atoms can be DEFINITELY false on a path (e.g. the resume helper asserting that
+    # the completion is the awaited one while the caller let a foreign one through): that is a crash, not an infeasible path.
+    assert_failures = None  # set to a list to collect them
+
+    def cond_event(self, expr, value, st):
+        if self.assert_failures is not None:
+            self._note_assert(expr, value, st)
+        return ASpec.cond_event(self, expr, value, st)
+
+    def _note_assert(self, expr, value, st):
+        if self.decide(expr, st, self._depth) is not value:
+            return  # forked, not decided
+        pol, n, p = value, expr, getattr(expr, "_parent", None)
+        while True:
+            if isinstance(p, ast.UnaryOp) and isinstance(p.op, ast.Not):
+                pol = not pol
+            elif isinstance(p, ast.BoolOp) and ((isinstance(p.op, ast.And) and pol is False) or (isinstance(p.op, ast.Or) and pol is True)):
+                pass  # a false conjunct / true disjunct decides the whole operation
+            elif isinstance(p, ast.Assert) and n is p.test:
+                break
+            else:
+                return
+            n, p = p, getattr(p, "_parent", None)
+        if pol is False:
+            self.assert_failures.append(norm(p))
+
+    _pre = None
+
+    def events(self, node, st):
+        self._pre = (node, st)  # the state before the statement's own events (the engine calls effect() right after events() for the same state)
+        return ASpec.events(self, node, st)
+
+    def effect(self, stmt, st, depth):
+        # `a, b = x, y`: all of the right-hand side is evaluated in the old state, then the targets are bound one by one
+        if isinstance(stmt, ast.Assign) and len(stmt.targets) == 1 and isinstance(stmt.targets[0], (ast.Tuple, ast.List)) and isinstance(stmt.value, (ast.Tuple, ast.List)):
+            pairs = _assign_pairs(stmt)
+            if all(v is not None for _, v in pairs):
+                old = self._pre[1] if self._pre and self._pre[0] is stmt else st
+                vals = [self.value(v, old, depth) for _, v in pairs]
+                for (t, v), val in zip(pairs, vals):
+                    st = ASpec.bind(self, t, v, st, depth, value=val)
+                return st
+        return ASpec.effect(self, stmt, st, depth)
 
     def decide_extra(self, cond, st, depth):
         cp = compare_pair(cond, (ast.Is, ast.IsNot, ast.Eq, ast.NotEq))
@@ -159,6 +256,19 @@ class LSpec(ASpec):
 def _sub_exprs(node):
     """Sub-expressions to label, in evaluation order (none for the synthetic assignments of LSpec.bind)."""
     return () if getattr(node, "_assign_only", False) else eval_order(node)
+
+
+def _is_cast(expr):
+    """``cast(T, x)`` / ``typing.cast(T, x)``: transparent."""
+    return isinstance(expr, ast.Call) and last_attr(expr.func) == "cast" and len(expr.args) == 2 and not expr.keywords
+
+
+def _effectful_arg(a):
+    """Does evaluating argument ``a`` involve a call / yield (other than the transparent cast)?"""
+    for x in ast.walk(a):
+        if isinstance(x, (ast.Yield, ast.YieldFrom, ast.Await, ast.NamedExpr)) or (isinstance(x, ast.Call) and not _is_cast(x)):
+            return True
+    return False
 
 
 def _syntactic_advance(call, names):
@@ -197,7 +307,7 @@ def _layer_roles(ctx):
             a = _self_attr(t)
             if not a or v is None:
                 continue
-            if isinstance(v, ast.Call) and last_attr(v.func) == "deque":
+            if isinstance(v, ast.Call) and last_attr(v.func.value if isinstance(v.func, ast.Subscript) else v.func) == "deque":
                 deques.append(a)
             elif isinstance(v, ast.Constant) and v.value is None:
                 nones.append(a)
@@ -300,15 +410,30 @@ def _layer_roles(ctx):
 
     r.opaque = {r.pump_name, "_handle_event", "handle_event", "__init__"}
     r.relevant = relevant
+    r.properties = {name: fn for name, fn in r.methods.items() if any(last_attr(d) in ("property", "cached_property") for d in fn.decorator_list) and relevant(name)}
+    # module-level helper functions that look at commands / completions / pause records
+    fields = {"blocking", r.cmd_field, r.gen_field, r.paused_attr, r.queue_attr}
+    r.modfuncs = {}
+    for st in mod.tree.body:
+        if isinstance(st, ast.FunctionDef):
+            ps = set(params_of(st))
+            if any((isinstance(n, ast.Attribute) and (n.attr in fields or n.attr == "CommandCompleted")) or (isinstance(n, ast.Name) and n.id == "CommandCompleted") or
+                   _syntactic_advance(n, ps) for n in _own_nodes(st)):
+                r.modfuncs[st.name] = st
 
     def resolver(call):
         c = _self_callee(call)
-        if c and c in r.methods and c not in r.opaque and relevant(c):
+        fn = None
+        if c and c in r.methods and c not in r.opaque and c not in r.properties and relevant(c):
+            fn = r.methods[c]
+        elif isinstance(call, ast.Call) and isinstance(call.func, ast.Name) and call.func.id in r.modfuncs:
+            fn = r.modfuncs[call.func.id]
+        if fn is not None:
             for a in list(call.args) + [k.value for k in call.keywords]:
-                if any(isinstance(x, (ast.Call, ast.Yield, ast.YieldFrom, ast.Await, ast.NamedExpr)) for x in ast.walk(a)):
+                if _effectful_arg(a):
                     raise AnalysisError(f"{norm(call)}: helper argument with a call / yield inside (effects of arguments of inlined helpers are not modelled)")
-            return r.methods[c]
-        return None
+            ctx.functions.add(f"{F}::{getattr(fn, '_qual', fn.name)}")
+        return fn
 
     r.resolver = resolver
 
@@ -399,6 +524,8 @@ def _paused_content(trace):
         if t[0] == "reset":
             return C(None)
         if t[0] == "setp":
+            if isinstance(t[1], tuple) and t[1] and t[1][0] == "?":
+                return ("unk", i + 1)  # assigned something the rule cannot evaluate
             return ("recv", t[1], t[2])
         if t[0] == "process":
             return ("rec", i + 1)
@@ -427,7 +554,28 @@ def _layer_spec(roles, event_param, scenario, unroll=2):
         c, g = vals.get(roles.cmd_field), vals.get(roles.gen_field)
         return (sp.v(c, st) if c is not None else ("?",), sp.v(g, st) if g is not None else ("?",))
 
+    def prop_value(fn, st, sp):
+        """value of a read-only property of the layer whose body is a single `return <expr>` (conditional expressions decided)"""
+        body = [b for b in fn.body if not (isinstance(b, ast.Expr) and isinstance(b.value, ast.Constant))]
+        if len(body) != 1 or not isinstance(body[0], ast.Return) or body[0].value is None:
+            return None
+        e = body[0].value
+        while isinstance(e, ast.IfExp):
+            d = sp.decide(e.test, st, sp._depth)
+            if d is None:
+                return None
+            e = e.body if d else e.orelse
+        return sp.v(e, st)
+
     def val(expr, st, sp):
+        if _is_cast(expr):
+            return sp.v(expr.args[1], st)
+        a = _self_attr(expr)
+        if a and a in roles.properties and isinstance(getattr(expr, "ctx", None), ast.Load):
+            v = prop_value(roles.properties[a], st, sp)
+            if v is None:
+                raise AnalysisError(f"self.{a}: property over the pause state that the rule cannot evaluate (shape not modelled)")
+            return v
         if isinstance(expr, ast.Call):
             if is_self_call(expr, "_handle_event") and len(expr.args) == 1 and not expr.keywords:
                 return ("gen", sp.v(expr.args[0], st))
@@ -527,6 +675,8 @@ def _layer_spec(roles, event_param, scenario, unroll=2):
         return out
 
     def atom(expr, st, sp):
+        if isinstance(expr, ast.NamedExpr):
+            expr = expr.target  # the engine has bound the target already and decides on it
         cur = _paused_content(st.trace)
 
         def is_cur(e):
@@ -562,6 +712,7 @@ def _layer_spec(roles, event_param, scenario, unroll=2):
 
     sp = LSpec(label=label, atom=atom, scenario=scenario, val=val, raises=raises, resolver=roles.resolver, unroll=unroll, max_depth=5)
     sp.deq_nodes = []
+    sp.assert_failures = []
     return sp
 
 
@@ -629,9 +780,13 @@ def _check_pump(ctx, roles, rule, where, name, stmts, bindings, gen, send0, stri
         sp = _layer_spec(roles, strip_handle or "event", scenario)
         traces, eng = _run(stmts, sp, bindings)
         ctx.paths += len(traces)
-        ctx.require(traces, f"{name}: no terminating path for blocking={bval}")
+        ctx.require(traces or sp.assert_failures, f"{name}: no terminating path for blocking={bval}")
         got = set()
         bad = None
+        crashed = False
+        for a in dict.fromkeys(sp.assert_failures):
+            crashed = True
+            ctx.fail(rule, where, f"{name} blocking={bval}", f"`{a}` fails for this kind of command (AssertionError while driving the generator)")
         for tr, how, _ in traces:
             toks = proj(tr, PUMP)
             if strip_handle is not None:
@@ -649,7 +804,7 @@ def _check_pump(ctx, roles, rule, where, name, stmts, bindings, gen, send0, stri
             if bad:
                 ctx.fail(rule, where, f"{name} blocking={bval}", f"{bad}; trace: {show(toks)}")
                 break
-        if not bad:
+        if not bad and not crashed:
             ctx.ok(rule, f"{name} blocking={bval}: {len(traces)} paths in the pump language")
         sets[bval] = got
     return sets
@@ -689,12 +844,16 @@ def _layer_core(ctx):
             scenario = {"P": True, "I": I, "S": S}
             if S:
                 scenario["Seq"] = True
+            resume = I and S
             sp = _layer_spec(roles, ev, scenario)
             traces, _ = _run(he.body, sp, {ev: ("param", ev)})
+            if resume and max([sum(1 for t in tr if t[0] == "deq") for tr, _, _ in traces] or [0]) == 1:
+                # a `while True: if <guard>: break` drain loop needs one more unrolling before a path with two dequeues leaves the loop
+                sp = _layer_spec(roles, ev, scenario, unroll=3)
+                traces, _ = _run(he.body, sp, {ev: ("param", ev)})
             ctx.paths += len(traces)
             ctx.cells += 1
-            ctx.require(traces, "Layer.handle_event: no terminating path in a paused scenario")
-            resume = I and S
+            ctx.require(traces or sp.assert_failures, "Layer.handle_event: no terminating path in a paused scenario")
             want = (("queue", "append", (("param", ev),)),)
             cons = f"paused=True completion={I} own_command={S}"
             ok = True
@@ -702,6 +861,9 @@ def _layer_core(ctx):
                 for p in sp.problems:
                     ok = False
                     ctx.fail("R04.1", where, "completion test order", p)
+            for a in dict.fromkeys(sp.assert_failures):
+                ok = False
+                ctx.fail("R04.1", where, cons, f"`{a}` fails in this scenario: the event is neither queued nor handled (AssertionError)")
             for tr, how, _ in traces:
                 toks = proj(tr, PUMP)
                 if resume:
@@ -875,8 +1037,9 @@ def _helper_resolver(ctx, rel, cls, opaque, touches):
         c = _self_callee(call)
         if c and c in methods and c not in opaque and relevant(c):
             for a in list(call.args) + [k.value for k in call.keywords]:
-                if any(isinstance(x, (ast.Call, ast.Yield, ast.YieldFrom, ast.Await, ast.NamedExpr)) for x in ast.walk(a)):
+                if _effectful_arg(a):
                     raise AnalysisError(f"{norm(call)}: helper argument with a call / yield inside (effects of arguments of inlined helpers are not modelled)")
+            ctx.functions.add(f"{rel}::{cls}.{c}")
             return methods[c]
         return None
 
@@ -1126,6 +1289,8 @@ def _replay_ok(toks, need_loop=True):
     """Replay discipline on one projected trace -> (construct, reason) | None."""
     loops = [i for i, t in enumerate(toks) if t[0] == "loop"]
     if not loops:
+        if any(t[0] == "replay" for t in toks):
+            raise AnalysisError("buffered events are replayed, but not by a `for` loop over the buffer (shape not modelled)")
         return ("replay loop", "buffered events are not replayed") if need_loop else None
     if any(toks[i][1] == "rev" for i in loops):
         return ("replay order", "buffered events are replayed back to front")
@@ -1316,11 +1481,12 @@ def check(ctx):
     ctx.rule("R04.5", "NextLayer / TunnelLayer buffer first and replay buffered events in order exactly once")
     ctx.trust("generator protocol (send/next/StopIteration), collections.deque / list / dict semantics")
     ctx.assume("loops unrolled twice; conditions that are not named atoms fork both ways")
-    _layer_core(ctx)
-    _router(ctx, HTTP, "HttpLayer")
-    _router(ctx, QUIC, "RawQuicLayer")
-    _nextlayer(ctx)
-    _tunnel(ctx)
+    # each part is guarded: a shape one part does not model (exit 2) must not hide a violation found by another part (exit 1)
+    ctx.guard(_layer_core, ctx)
+    ctx.guard(_router, ctx, HTTP, "HttpLayer")
+    ctx.guard(_router, ctx, QUIC, "RawQuicLayer")
+    ctx.guard(_nextlayer, ctx)
+    ctx.guard(_tunnel, ctx)
     ctx.expect_instances("R04.3", 7 + 2 * 6)
     ctx.expect_instances("R04.5", 1 + 2 + 4 + 1)
 
